@@ -130,6 +130,7 @@ func (d dissecting) Dissect(b *bufio.Reader, reader api.TcpReader) error {
 	}
 
 	switchingProtocolsHTTP2 := false
+	var upgradeRequest *http.Request
 	for {
 		if switchingProtocolsHTTP2 {
 			switchingProtocolsHTTP2 = false
@@ -137,11 +138,41 @@ func (d dissecting) Dissect(b *bufio.Reader, reader api.TcpReader) error {
 			if err != nil {
 				break
 			}
-			err = prepareHTTP2Connection(b, reader.GetIsClient())
-			if err != nil {
-				break
+			// A request that offers the h2c upgrade does not decide it: a server that speaks HTTP/1.1 only
+			// ignores the offer (curl --http2 against such a server) and the connection goes on in HTTP/1.x.
+			// The client half used to insist on the HTTP/2 preface here and stopped when it was not there,
+			// so every later request of the connection was lost and its responses were left waiting.
+			if isHTTP2 {
+				err = prepareHTTP2Connection(b, reader.GetIsClient())
+				if err != nil {
+					break
+				}
+				http2Assembler = createHTTP2Assembler(b)
+
+				// The upgrade took place: duplicate the HTTP1 request into HTTP2 with stream ID 1
+				if upgradeRequest != nil {
+					ident := fmt.Sprintf(
+						"%s_%s_%s_%s_1_%s",
+						reader.GetTcpID().SrcIP,
+						reader.GetTcpID().DstIP,
+						reader.GetTcpID().SrcPort,
+						reader.GetTcpID().DstPort,
+						"HTTP2",
+					)
+					item := reqResMatcher.registerRequest(ident, upgradeRequest, reader.GetCaptureTime(), reader.GetReadProgress().Current(), upgradeRequest.ProtoMinor)
+					if item != nil {
+						item.ConnectionInfo = &api.ConnectionInfo{
+							ClientIP:   reader.GetTcpID().SrcIP,
+							ClientPort: reader.GetTcpID().SrcPort,
+							ServerIP:   reader.GetTcpID().DstIP,
+							ServerPort: reader.GetTcpID().DstPort,
+							IsOutgoing: true,
+						}
+						reader.GetEmitter().Emit(item)
+					}
+				}
 			}
-			http2Assembler = createHTTP2Assembler(b)
+			upgradeRequest = nil
 		}
 
 		if isHTTP2 {
@@ -172,27 +203,10 @@ func (d dissecting) Dissect(b *bufio.Reader, reader api.TcpReader) error {
 			}
 			reader.GetParent().SetProtocol(&http11protocol)
 
-			// In case of an HTTP2 upgrade, duplicate the HTTP1 request into HTTP2 with stream ID 1
+			// In case of an HTTP2 upgrade the request is duplicated into HTTP2 with stream ID 1, once the
+			// client is seen to go on in HTTP/2 (top of the loop)
 			if switchingProtocolsHTTP2 {
-				ident := fmt.Sprintf(
-					"%s_%s_%s_%s_1_%s",
-					reader.GetTcpID().SrcIP,
-					reader.GetTcpID().DstIP,
-					reader.GetTcpID().SrcPort,
-					reader.GetTcpID().DstPort,
-					"HTTP2",
-				)
-				item := reqResMatcher.registerRequest(ident, req, reader.GetCaptureTime(), reader.GetReadProgress().Current(), req.ProtoMinor)
-				if item != nil {
-					item.ConnectionInfo = &api.ConnectionInfo{
-						ClientIP:   reader.GetTcpID().SrcIP,
-						ClientPort: reader.GetTcpID().SrcPort,
-						ServerIP:   reader.GetTcpID().DstIP,
-						ServerPort: reader.GetTcpID().DstPort,
-						IsOutgoing: true,
-					}
-					reader.GetEmitter().Emit(item)
-				}
+				upgradeRequest = req
 			}
 		} else {
 			switchingProtocolsHTTP2, err = handleHTTP1ServerStream(b, reader.GetReadProgress(), reader.GetTcpID(), reader.GetCounterPair(), reader.GetCaptureTime(), reader.GetEmitter(), reqResMatcher)
